@@ -146,20 +146,20 @@ Proof.
   - destruct (readto s p ba) as [s' r] eqn:E. cbn [fst]. pose proof (readto_valid s p ba Hv) as V. rewrite E in V. exact V.
   - unfold st_append, valid. cbn. pose proof (zlen_nonneg (addright (sbits s) bs)). lia.
   - unfold st_prepend, valid. cbn. pose proof (zlen_nonneg (addleft (sbits s) bs)). lia.
-  - unfold st_insert. destruct (zlen bs =? 0) eqn:Ez; [exact Hv|].
+  - unfold st_insert.
     set (p0 := match pos with None => spos s | Some v => v end). set (p := if p0 <? 0 then p0 + zlen (sbits s) else p0).
-    destruct ((0 <=? p) && (p <=? zlen (sbits s))) eqn:Ep; [|exact Hv].
+    destruct ((0 <=? p) && (p <=? zlen (sbits s))) eqn:Ep; [|exact Hv]. destruct (zlen bs =? 0) eqn:Ez; [exact Hv|].
     unfold on_content. destruct (insert_ false (sbits s) bs p) as [b'|] eqn:Ei; [|exact Hv].
     apply insert_length in Ei. unfold valid; cbn [fst spos sbits]. pose proof (zlen_nonneg bs). lia.
-  - unfold st_overwrite. destruct (zlen bs =? 0) eqn:Ez; [exact Hv|].
+  - unfold st_overwrite.
     set (p0 := match pos with None => spos s | Some v => v end). set (p := if p0 <? 0 then p0 + zlen (sbits s) else p0).
-    destruct ((p <? 0) || (p >? zlen (sbits s))) eqn:Ep; [exact Hv|].
+    destruct ((p <? 0) || (p >? zlen (sbits s))) eqn:Ep; [exact Hv|]. destruct (zlen bs =? 0) eqn:Ez; [exact Hv|].
     unfold on_content. destruct (overwrite_ false false (sbits s) bs p) as [b'|] eqn:Ei; [|exact Hv].
     unfold valid; cbn [fst spos sbits]. pose proof (zlen_nonneg bs).
     destruct (overwrite_length _ _ _ _ _ Ei) as [Hl|(Hs & _)]; [lia|discriminate].
-  - unfold st_overwrite. destruct (zlen (sbits s) =? 0) eqn:Ez; [exact Hv|].
+  - unfold st_overwrite.
     set (p0 := match pos with None => spos s | Some v => v end). set (p := if p0 <? 0 then p0 + zlen (sbits s) else p0).
-    destruct ((p <? 0) || (p >? zlen (sbits s))) eqn:Ep; [exact Hv|].
+    destruct ((p <? 0) || (p >? zlen (sbits s))) eqn:Ep; [exact Hv|]. destruct (zlen (sbits s) =? 0) eqn:Ez; [exact Hv|].
     unfold on_content. destruct (overwrite_ false true (sbits s) (sbits s) p) as [b'|] eqn:Ei; [|exact Hv].
     unfold valid; cbn [fst spos sbits].
     destruct (overwrite_length _ _ _ _ _ Ei) as [Hl|(_ & Hp & Hb)]; [lia|]. subst b'. lia.
@@ -210,11 +210,11 @@ Proof.
   - unfold bytealign, set_pos in *. destruct (_ <? 0); [reflexivity|]. destruct (_ >? zlen (sbits s)); [reflexivity|discriminate].
   - unfold st_find in *. destruct (bs_find _ _ _ _ _ _) as [[q|]|e]; cbn in *; try discriminate; reflexivity.
   - unfold st_rfind in *. destruct (bs_rfind _ _ _ _ _ _) as [[q|]|e]; cbn in *; try discriminate; reflexivity.
-  - unfold st_insert in *. destruct (zlen bs =? 0); [reflexivity|]. destruct (_ && _); [|reflexivity].
+  - unfold st_insert in *. destruct (_ && _); [|reflexivity]. destruct (zlen bs =? 0); [reflexivity|].
     unfold on_content in *. destruct (insert_ _ _ _ _); [discriminate|reflexivity].
-  - unfold st_overwrite in *. destruct (zlen bs =? 0); [reflexivity|]. destruct (_ || _); [reflexivity|].
+  - unfold st_overwrite in *. destruct (_ || _); [reflexivity|]. destruct (zlen bs =? 0); [reflexivity|].
     unfold on_content in *. destruct (overwrite_ _ _ _ _ _); [discriminate|reflexivity].
-  - unfold st_overwrite in *. destruct (zlen (sbits s) =? 0); [reflexivity|]. destruct (_ || _); [reflexivity|].
+  - unfold st_overwrite in *. destruct (_ || _); [reflexivity|]. destruct (zlen (sbits s) =? 0); [reflexivity|].
     unfold on_content in *. destruct (overwrite_ _ _ _ _ _); [discriminate|reflexivity].
   - unfold st_setitem_int, reset_if_len_changed, on_content in *. destruct (ba_setitem_int _ _ _ _); [discriminate|reflexivity].
   - unfold st_setitem_slice, reset_if_len_changed, on_content in *. destruct (ba_setitem_slice _ _ _ _); [discriminate|reflexivity].
